@@ -276,7 +276,7 @@ class RAMEmitter(Emitter):
                 paths_data = []
                 for path in query:
                     datum = get_in(data, path)
-                    if datum:
+                    if datum is not None:
                         path_data = (path, datum)
                         paths_data.append(path_data)
                 returned_data[t] = paths_to_dict(paths_data)
